@@ -64,6 +64,12 @@ def gen_case(rs, tier):
                 k = rng.randint(1, m) if not beyond else rng.randint(m + 1, m + 3)
             else:
                 k = rng.randint(0, m) if not beyond else rng.randint(m + 1, m + 2)
+            if kind == "EQ" and rng.random() < 0.15:
+                # a request over no variables at all (ExactlyK on a level of a window factor wider than the block is long
+                # compiles to one): "exactly 1 of none" is unsatisfiable, "exactly 0 of none" holds.  (The CNF side refuses
+                # "fewer/more than k of none" with ValueError, so there is nothing to compare for those.)
+                vs = []
+                k = rng.choice([0, 1, 1, 2])
             reqs.append([kind, k, vs])
         # make every variable 1..n occur somewhere, so that both sides talk about the same variable set
         # (a request does not count: "fewer than 3 of 2" holds trivially and compiles to nothing, and a variable that occurs in
